@@ -53,25 +53,16 @@ Fun(code, M, e) == CASE code = 0 -> (e + 1) % M
 NFun == 4
 Injective(code) == code \in {0, 2}
 
-(* every operation record of one signature: which fields an operation uses
-     "ks" | "v" | "vk" | "vks" | "vw" | "vx" | "vxk" | "vkx" | "vwx" | "x" | "xk" | "vkxw" *)
+(* the signature of an operation = the set of fields it uses: "v" "w" versions, "k" key, "x" number, "s" key sequence *)
+S_s == {"s"}           S_x == {"x"}            S_xk == {"x", "k"}        S_xs == {"x", "s"}      S_ks == {"k", "s"}
+S_v == {"v"}           S_vk == {"v", "k"}      S_vs == {"v", "s"}        S_vw == {"v", "w"}      S_vx == {"v", "x"}
+S_vxk == {"v", "x", "k"}  S_vwx == {"v", "w", "x"}  S_vxs == {"v", "x", "s"}  S_vws == {"v", "w", "s"}
+S_vks == {"v", "k", "s"}  S_vkxw == {"v", "w", "k", "x"}
 SigOps(name, sig, live, Keys, KSeqs, Xs) ==
-  CASE sig = "ks"  -> {Op(name, 0, 0, 0, 0, ks) : ks \in KSeqs}
-    [] sig = "v"   -> {Op(name, v, 0, 0, 0, <<>>) : v \in live}
-    [] sig = "vk"  -> {Op(name, v, 0, k, 0, <<>>) : v \in live, k \in Keys}
-    [] sig = "vks" -> {Op(name, v, 0, 0, 0, ks) : v \in live, ks \in KSeqs}
-    [] sig = "vw"  -> {Op(name, v, w, 0, 0, <<>>) : v \in live, w \in live}
-    [] sig = "vx"  -> {Op(name, v, 0, 0, x, <<>>) : v \in live, x \in Xs}
-    [] sig = "vxk" -> {Op(name, v, 0, k, x, <<>>) : v \in live, x \in Xs, k \in Keys}
-    [] sig = "vkx" -> {Op(name, v, 0, k, x, <<>>) : v \in live, x \in Xs, k \in Keys}
-    [] sig = "vwx" -> {Op(name, v, w, 0, x, <<>>) : v \in live, w \in live, x \in Xs}
-    [] sig = "x"   -> {Op(name, 0, 0, 0, x, <<>>) : x \in Xs}
-    [] sig = "xk"  -> {Op(name, 0, 0, k, x, <<>>) : x \in Xs, k \in Keys}
-    [] sig = "vkxw" -> {Op(name, v, w, k, x, <<>>) : v \in live, w \in live, x \in Xs, k \in Keys}
-    [] OTHER -> {}
-UsesV(sig) == sig \in {"v", "vk", "vks", "vw", "vx", "vxk", "vkx", "vwx", "vkxw"}
-UsesW(sig) == sig \in {"vw", "vwx", "vkxw"}
-UsesK(sig) == sig \in {"vk", "vxk", "vkx", "xk", "vkxw"}
-UsesX(sig) == sig \in {"vx", "vxk", "vkx", "vwx", "x", "xk", "vkxw"}
-UsesKs(sig) == sig \in {"ks", "vks"}
+  {Op(name, v, w, k, x, ks) : v \in (IF "v" \in sig THEN live ELSE {0}), w \in (IF "w" \in sig THEN live ELSE {0}),
+                              k \in (IF "k" \in sig THEN Keys ELSE {0}), x \in (IF "x" \in sig THEN Xs ELSE {0}),
+                              ks \in (IF "s" \in sig THEN KSeqs ELSE {<<>>})}
+(* first occurrences only *)
+DedupSeq(q) == LET keep == {i \in DOMAIN q : \A j \in 1..(i - 1) : q[j] # q[i]}
+                   idx == SortedSeq(keep) IN [j \in 1..Len(idx) |-> q[idx[j]]]
 =======================================================================
